@@ -1,6 +1,6 @@
 (* C06 — optimize terminates, respects purity, and reaches a minimal fixpoint. Property theorems only. *)
 Require Import ZArith NArith Bool List Arith. Import ListNotations.
-Require Import F64 Dec Types Generic Lang Opt IO OptFacts OptFacts2 OptFacts3 OptFacts4 GenStruct.
+Require Import F64 Dec Types Generic Lang Opt IO OptFacts OptFacts2 OptFacts3 OptFacts4 GenStruct OptTab.
 
 (* termination with the closed-form fuel the extracted run_opt uses: never OutOfFuel, for every tree and environment *)
 Theorem C06_terminates : forall E e acc, fst (fst (optimize_t E (opt_fuel e) e acc)) <> Generic.OOutOfFuel.
@@ -49,3 +49,10 @@ Theorem C06_optimizer_arms_are_the_codes :
                              (NArray, GAllLiteral, FEvalWhole); (NArray, GNone, FRecAll); (NCall, GAllLiteral, FEvalWholeIfExistsPure); (NCall, GNone, FRecAll); (NAnyOther, GNone, WNothing)] /\
   gen_fold_constants_ends_ok = true /\ gen_expressions_are_const_as_modelled = true /\ gen_optimize_loop_as_modelled = true.
 Proof. repeat split; reflexivity. Qed.
+
+(* ... and the walks of the model ARE the reading of those arms: at every node, `tt` and `fold` satisfy exactly the equation that the first fitting arm prescribes
+   (glossary of body texts in OptTab.v), and `optimize` is the transform-fold-repeat loop *)
+Theorem C06_transform_is_the_table : forall e, Some (Generic.tt e) = match arm_for gen_transform_ternary_arms e with Some b => tt_body b e | None => None end.
+Proof. exact tt_is_the_table. Qed.
+Theorem C06_fold_is_the_table : forall E e, Some (Generic.fold as_bool is_empty un binop E e) = match arm_for gen_fold_constants_arms e with Some b => fold_body E b e | None => None end.
+Proof. exact fold_is_the_table. Qed.
